@@ -28,6 +28,11 @@ def chain(d):
     while isinstance(d, T.T) and d.op == "ite":
         out.append((d.args[0], d.args[1]))
         d = d.args[2]
+    if isinstance(d, T.T) and d.op != "const" and d.w > 1:
+        bit = T._bool_word_bit(d)  # ite(c, 1, 0) is normalised to the zero-extended condition
+        if bit is not None:
+            out.append((bit, T.const(1, d.w)))
+            d = T.const(0, d.w)
     return out, d
 
 
@@ -97,7 +102,7 @@ def run(chk, tier):
         s2.assume = ()
         for a in assumps:
             add_assume(s2, a)
-        d = resolve_all(ev, s2, edis) if isinstance(edis, T.T) else T.const(edis, 64)
+        d = LP.simplify_under(ev, s2, edis) if isinstance(edis, T.T) else T.const(edis, 64)
         return VARIANTS[d.aux] if d.op == "const" and d.aux < len(VARIANTS) else T.show(d, 3)
     nl = T.bnot(lt)
     pre = [nl]
@@ -140,7 +145,7 @@ def run(chk, tier):
             names = {v.aux if v.op == "sym" else v.aux[0]: v for v in (tb, ds, cm, cs)}
             def nxt_of(v):
                 n = v.aux if v.op == "sym" else v.aux[0]
-                return resolve_all(ev, s3, nxt[n])
+                return LP.simplify_under(ev, s3, nxt[n])
             one = lambda v: T.add(v, T.const(1, v.w))
             e_tb = T.ite(T.ult(r1, r4), tb, one(tb))
             chk.ob("R3", "counter time_backwards|+1 iff second reading <= first", nxt_of(tb) is e_tb, "update %s" % T.show(nxt_of(tb), 4), where=where)
